@@ -94,7 +94,7 @@ def events(cn_, node):
     return out
 
 
-def select(fx, q, nparams=None, pick=None, enclosing=None):
+def select(fx, q, nparams=None, pick=None, enclosing=None, ptypes=None):
     if enclosing:
         # a lambda is identified by the function it is written in (its own name contains a source position)
         outs = []
@@ -109,6 +109,10 @@ def select(fx, q, nparams=None, pick=None, enclosing=None):
            (nparams is None or len(f.o["params"]) == nparams)]
     if pick:
         fns = [f for f in fns if pick(f)]
+    if ptypes:
+        # overloads with the same number of parameters: by a substring of the canonical type of a parameter
+        fns = [f for f in fns if all(int(i) < len(f.o["params"]) and sub in f.facts.TC(f.o["params"][int(i)]["t"])
+                                     for i, sub in ptypes.items())]
     return fns
 
 
@@ -146,7 +150,7 @@ def check(chk, fx, rule, name):
     if not os.path.exists(p):
         chk.incomplete("reference summary %s missing" % name)
     g = json.load(open(p))
-    fns = select(fx, g["function"], g.get("nparams"), enclosing=g.get("enclosing"))
+    fns = select(fx, g["function"], g.get("nparams"), enclosing=g.get("enclosing"), ptypes=g.get("ptypes"))
     if g.get("param0_contains"):
         fns = [f for f in fns if g["param0_contains"] in f.facts.T(f.o["params"][0]["t"])]
     if not fns:
@@ -174,8 +178,8 @@ def check(chk, fx, rule, name):
     return f
 
 
-def freeze(fx, name, q, contract, nparams=None, param0_contains=None, enclosing=None, unroll=1):
-    fns = select(fx, q, nparams, enclosing=enclosing)
+def freeze(fx, name, q, contract, nparams=None, param0_contains=None, enclosing=None, unroll=1, ptypes=None):
+    fns = select(fx, q, nparams, enclosing=enclosing, ptypes=ptypes)
     if param0_contains:
         fns = [f for f in fns if param0_contains in f.facts.T(f.o["params"][0]["t"])]
     if not fns:
@@ -185,6 +189,8 @@ def freeze(fx, name, q, contract, nparams=None, param0_contains=None, enclosing=
     d = {"function": q, "contract": contract, "events": to_json(conds)}
     if unroll != 1:
         d["unroll"] = unroll
+    if ptypes:
+        d["ptypes"] = ptypes
     if nparams is not None:
         d["nparams"] = nparams
     if param0_contains:
